@@ -104,6 +104,15 @@ def run(ck):
             lines.append("prog " + nm); body = ["w " + hx(x), f"{op} {P} $0 $0", "snap"]; lines.extend(body)
             progs[nm] = body; aliased[nm] = (op, P, x)
             ck.count((op, P, x, "aliased"), kind=op + ", aliased operands")
+    # several logic components sharing an operand witness, at different widths, in one composer: each call binds its
+    # own truncation; each result is the bitwise result at ITS width
+    lseqs = {}
+    for k_, (ops_, xs_) in enumerate([([("lxor", 4), ("lxor", 8)], (R - 1, 0x1234)), ([("land", 8), ("land", 2)], (R - 1, R - 2)), ([("lxor", 16), ("land", 3), ("lxor", 127)], (rng.scalar(), rng.scalar())),
+                                      ([("land", 5), ("land", 5)], (0xfff, 0x3ff)), ([("lxor", 2), ("lxor", 1), ("lxor", 0), ("lxor", 3)], (0xff, 0xa5))]):
+        nm = f"lseq{k_}"
+        body = ["w " + hx(xs_[0]), "w " + hx(xs_[1])] + [f"{o} {p_} $0 $1" for o, p_ in ops_] + ["snap"]
+        lines.append("prog " + nm); lines.extend(body); progs[nm] = body; lseqs[nm] = (ops_, xs_)
+        ck.count(("lseq", k_), kind="several logic components on shared operands")
     impl, model = composer.run_both(ck, "\n".join(lines) + "\n", "c10")
     ck.sample({"program": progs["lxor4_1"]}); ck.sample({"program": progs["land127_0"]})
     bad = composer.compare_programs(ck, progs, impl, model, "C10")
@@ -148,6 +157,19 @@ def run(ck):
                     nm = name + "_alias"
                     jobs.append((nm, snap, w2)); expect[nm] = False; info[nm] = ("alias a+r", op, P)
                     ck.count(("alias", op, P), kind="template: accumulators of a+r")
+    for nm, (ops_, xs_) in lseqs.items():
+        if nm not in impl: continue
+        snap = Snapshot(impl[nm])
+        outs = [int(r_[0]) for r_ in snap.results[2:] if r_ and r_[0].isdigit()]
+        jobs.append((nm, snap, None)); expect[nm] = True; info[nm] = ("honest sequence on shared operands", "seq", 0)
+        for (o, p_), wi in zip(ops_, outs):
+            N_ = 2 * p_
+            f_ = (lambda u, v: u ^ v) if o == "lxor" else (lambda u, v: u & v)
+            want_ = f_(xs_[0] % (1 << N_), xs_[1] % (1 << N_)) if N_ else 0
+            if wi < len(snap.wits) and snap.wits[wi] != want_:
+                ck.violation(f"in a sequence of logic components on the same operands, {o}::<{p_}> returned {snap.wits[wi]:#x}, expected {want_:#x}",
+                             {"failing_input_found": True, "program": progs[nm]}, key=f"seq-value:{o}")
+                break
     for nm, (op, P, x) in aliased.items():
         if nm not in impl: continue
         snap = Snapshot(impl[nm]); N = 2 * P
@@ -191,10 +213,10 @@ def run(ck):
         got = res.get(nm, "?") is None
         if got != expect[nm]:
             tag, op, P = info[nm]
-            base_name = nm.split("_")[0] + "_" + nm.split("_")[1]
+            base_name = nm if nm in progs else "_".join(nm.split("_")[:2])
             ck.violation(f"{tag}: {op} pairs={P}: rows of the real layout satisfiable={got}, property requires {expect[nm]}",
                          {"failing_input_found": True, "program": progs.get(base_name), "template": tag, "pairs": P}, key=f"{tag}:{op}:{P}")
-    base_of = lambda n: n.split("_")[0] + "_" + n.split("_")[1]
+    base_of = lambda n: n if n in progs else "_".join(n.split("_")[:2])
     for nm, over in composer.second_opinion(ck, jobs, expect, progs, base_of, "c10_rp",
                                             lambda n: (n.endswith(("_3", "_2", "_o", "_alias")) and n.count("_") == 2) or n.endswith("_al_y"), limit=8 if quick else 40, pp_log=10):
         tag, op, P = info[nm]
@@ -203,7 +225,8 @@ def run(ck):
     if (bad or wbad) and not ck.violations:
         if bad:
             name, d = bad[0]
-            ck.violation(f"correspondence C10 (L3) broke on {len(bad)} of {len(progs)} programs; first {name} {meta[name][:2]}: {d}",
+            m_desc = (meta.get(name) or aliased.get(name) or lseqs.get(name) or ("?",))[:2]
+            ck.violation(f"correspondence C10 (L3) broke on {len(bad)} of {len(progs)} programs; first {name} {m_desc}: {d}",
                          {"failing_input_found": False, "correspondence": "L3 snapshot of logic gadget vs Composer/Components.v", "program": progs[name], "diff": d, "theorems_no_longer_tied": THEOREMS})
         else:
             wd, form, line, a, b = wbad[0]
